@@ -53,11 +53,15 @@ def random_state(rnd, gen, MPS):
     fs = [torch.randn(dims[i], dim, dims[i + 1], dtype=dtype, generator=gen) for i in range(n)]
     psi = dense(fs)
     fs[0] = fs[0] / torch.linalg.norm(psi) * rnd.choice([0.2, 1.0, 1.0, 5.0])
-    st = MPS(fs, eigenstates=("r", "g") if dim == 2 else ("g", "r", "x"), num_gpus_to_use=0)
+    # half of the states carry a bond cap they already saturate (as a run with a small max_bond_dim does): an
+    # observable must not truncate anything on the way to its value
+    cap = rnd.choice([None, max(dims)])
+    st = MPS(fs, eigenstates=("r", "g") if dim == 2 else ("g", "r", "x"), num_gpus_to_use=0,
+             **({} if cap is None else {"max_bond_dim": cap}))
     how = rnd.choice(["no centre", "centre", "centre"])
     if how == "centre":
         st.orthogonalize(rnd.randrange(n))
-    return st, n, dim, f"N={n} dim={dim} chi={chi} |psi|={torch.linalg.norm(dense(st.factors)).item():.3g} {how}={st.orthogonality_center}"
+    return st, n, dim, f"N={n} dim={dim} chi={chi} max_bond_dim={cap} |psi|={torch.linalg.norm(dense(st.factors)).item():.3g} {how}={st.orthogonality_center}"
 
 
 def after(name, st, psi, label):
@@ -142,6 +146,33 @@ def falsify(rnd, gen):
             Hd = torch.eye(1, dtype=dtype)
             for h in hs:
                 Hd = torch.kron(Hd, h)
+            if n >= 2 and t % 2 == 0:
+                # an ENTANGLING Hamiltonian sum_i h_i + sum_i n_i n_{i+1} (MPO bond dimension 3): H|psi> needs a larger
+                # bond than psi, so an implementation that compresses H|psi> to the state's bond cap loses weight
+                I2 = torch.eye(dim, dtype=dtype)
+                nn = torch.zeros(dim, dim, dtype=dtype)
+                nn[1, 1] = 1.0
+                fac = []
+                for k, h in enumerate(hs):
+                    W = torch.zeros(3, dim, dim, 3, dtype=dtype)
+                    W[0, :, :, 0] = I2
+                    W[1, :, :, 0] = nn
+                    W[2, :, :, 0] = h
+                    W[2, :, :, 1] = nn
+                    W[2, :, :, 2] = I2
+                    if k == 0:
+                        W = W[2:3]
+                    if k == n - 1:
+                        W = W[..., 0:1]
+                    fac.append(W.clone())
+                H = MPO(fac, num_gpus_to_use=0)
+
+                def emb(op, k):
+                    out = torch.eye(1, dtype=dtype)
+                    for j in range(n):
+                        out = torch.kron(out, op if j == k else I2)
+                    return out
+                Hd = sum(emb(h, k) for k, h in enumerate(hs)) + sum(emb(nn, k) @ emb(nn, k + 1) for k in range(n - 1))
             e = torch.vdot(psi, Hd @ psi).real
             e2 = torch.vdot(psi, Hd @ (Hd @ psi)).real
             etol = 1e-7 * max(1.0, abs(e2.item()))
